@@ -236,6 +236,35 @@ theorem D_unfold (z : ℝ) : D σ z =
     piecewise σ |z| pieces (F σ fn_face_contour_line |z|) := by
   simp only [D, localDepth, depth_abs, if_true, depth_default, F, PyNum.abs_real]
 
+/-! ### the argument of the depth function (numeric kind handed over by the caller, conversions read from the source) -/
+
+/-- the C cast `double → integer` (toward zero), on the reals -/
+noncomputable instance instPyTruncReal : PyTrunc ℝ where
+  trunc x := if 0 ≤ x then ⌊x⌋ else ⌈x⌉
+
+/-- the embedding of the integers (`float(n)`), on the reals -/
+@[simp] theorem ofInt_real (n : ℤ) : (ofInt n : ℝ) = n := by
+  unfold ofInt
+  split_ifs with h
+  · rw [PyNum.nat_real, Nat.cast_natAbs, Int.cast_abs, abs_of_neg (by exact_mod_cast h)]; ring
+  · rw [PyNum.nat_real, Nat.cast_natAbs, Int.cast_abs, abs_of_nonneg (by exact_mod_cast (not_lt.mp h))]
+
+/-- handed a float, the translated `local_depth` (what it does to its argument included) hands back the float `D σ x`
+    (whichever conversions the translator read) -/
+theorem localDepthElem_float (x : ℝ) :
+    localDepthElem depth_arg_ops pieces depth_default σ (.float x) = .float (D σ x) := by
+  simp only [localDepthElem, convElem, depth_arg_ops, List.foldl, ArgOp.onElem, PyScalar.val, storeLike, D, localDepth,
+    depth_abs, if_true, PyNum.abs_real]
+
+/-- handed an integer, the translated `local_depth` hands back the float `D σ n` - provided the source converts its argument
+    to float (on a source form without the conversion the hypothesis is refuted by `decide`) -/
+theorem localDepthElem_int (h : ArgOp.asFloat ∈ depth_arg_ops) (n : ℤ) :
+    localDepthElem depth_arg_ops pieces depth_default σ (.int n) = .float (D σ n) := by
+  first
+  | (simp only [localDepthElem, convElem, depth_arg_ops, List.foldl, ArgOp.onElem, PyScalar.val, storeLike, D, localDepth,
+      depth_abs, if_true, PyNum.abs_real, ofInt_real, Nat.cast_natAbs, Int.cast_abs, Int.cast_id]; done)
+  | (exact absurd h (by decide))
+
 theorem D_face (o : Ordered σ) (z : ℝ) (h : Expr.eval σ z1 ≤ |z|) : D σ z = F σ fn_face_contour_line |z| := by
   obtain ⟨h7, h76, h65, h54, h43, h31, h10⟩ := o
   rw [D_unfold]
